@@ -109,6 +109,16 @@ func c16Lattice(res *vResult, cfg vCfg, only *c16Case) {
 			}
 		}
 	}
+	// rule identifiers at the edges of their 16/32-bit ranges (an identifier must never be used as an array index)
+	for _, ids := range [][3]uint32{{1023, 1024, 1025}, {2001, 2002, 2003}, {65534, 65535, 0xFFFFFFFF}, {0xFFFF, 1, 0x7FFFFFFF}} {
+		r := mk(100, "16.0.0.1", 0x100, "", 9, "11.1.1.129")
+		r.CreatePDR[0].ID, r.CreatePDR[1].ID = uint16(ids[0]), uint16(ids[1])
+		r.CreatePDR[0].FAR, r.CreatePDR[1].FAR = ids[2], ids[2]-1
+		r.CreateFAR[0].ID, r.CreateFAR[1].ID = ids[2], ids[2]-1
+		r.CreateQER[0].ID = ids[2]
+		r.CreatePDR[0].QERs, r.CreatePDR[1].QERs = []uint32{ids[2]}, []uint32{ids[2]}
+		run(r, fmt.Sprint("rule ids ", ids))
+	}
 	// slice meter through the REST handler
 	h := &ConfigHandler{upf: in.u}
 	for _, body := range []string{
